@@ -5,10 +5,17 @@ from harness import ir
 
 
 def single(cfg, name, args, mode="normal", inplace=False, alias=False):
-    """args: list of (type, kind, value); mode: normal | ignore | guard<levels>, one of 0, 1, p per nesting level, e.g. guard0, guard10, guard1p"""
+    """args: list of (type, kind, value); mode: normal | ignore | guard<levels>, one of 0, 1, p per nesting level, e.g. guard0, guard10, guard1p.
+    An argument of type B whose value is not 0/1 is a DECLARED boolean holding garbage: it is created as an integer input
+    and converted with LinCombBool(x) right before the operation, inside the innermost guard (possible only where errors
+    are suppressed; elsewhere the conversion raises and the run ends there)."""
     stmts = []
-    for t, k, v in args:
-        if t in "IBF":
+    nonbool = []
+    for i, (t, k, v) in enumerate(args):
+        if t == "B" and v not in (0, 1):
+            stmts.append(["in", k or "priv", "I", v])
+            nonbool.append(i)
+        elif t in "IBF":
             stmts.append(["in", k or "priv", t, v])
         else:
             stmts.append(["const", v])
@@ -19,17 +26,22 @@ def single(cfg, name, args, mode="normal", inplace=False, alias=False):
         assert n == 2 and args[0] == args[1]
         stmts.pop()
         n, refs = 1, [0, 0]
-    body = [["op", name, refs] + (["inplace"] if inplace else [])]
     cfg = dict(cfg)
     if mode.startswith("ignore+"):
         cfg["ignore"] = True
         mode = mode[len("ignore+"):]
+    nguards = len(mode[len("guard"):]) if mode.startswith("guard") else 0
+    pre = []
+    for j, i in enumerate(nonbool):
+        pre.append(["op", "toB", [i]])
+        refs = [n + nguards + j if r == i else r for r in refs]
+    body = pre + [["op", name, refs] + (["inplace"] if inplace else [])]
     if mode == "ignore":
         cfg["ignore"] = True
         stmts += body
     elif mode.startswith("guard"):
         bits = mode[len("guard"):]
-        # guards are created first so that operand indices stay 0..n-1 ... they are appended instead
+        # guards are created after the operands so that operand indices stay 0..n-1
         gidx = []
         for ch in bits:
             # 0 / 1: secret condition with that value; p: a PUBLIC condition (plain 1), as in _if(1) or a loop with an int bound
@@ -41,7 +53,7 @@ def single(cfg, name, args, mode="normal", inplace=False, alias=False):
         stmts += inner
     else:
         stmts += body
-    return {"cfg": cfg, "stmts": stmts}
+    return {"cfg": cfg, "stmts": stmts, "first_result": n + nguards + len(nonbool)}
 
 
 def results(m, nargs_total):
